@@ -275,6 +275,9 @@ func judge(r *vrun.Run, cs caseSpec, res *result) {
 	r.ObsSet("phase_at_stop", res.Phase)
 	r.ObsSet("instant", instantClass(cs))
 	r.ObsSet("awaited", res.Awaited)
+	if cs.Launcher != "" {
+		r.Obs("cases_whose_executable_was_removed_before_the_stop", 1)
+	}
 	if nontrivial {
 		r.Obs("cases_tree_alive_at_stop", 1)
 	}
